@@ -56,13 +56,32 @@ def _eq_snap_desc(real, exp, what):
     return None
 
 
+IDVARIANT = {0: 0, 1: 8, 2: 16, 3: 24}     # identifiers that collide modulo 8 (set iteration order of small ints)
+
+
 def _check(cname, n, pairs, rb, pb, has_ts, tb, ra, pa, ta, rbd, pbd, tbd):
+    for variant in (0, 1):
+        msg = _check1(cname, n, pairs, rb, pb, has_ts, tb, ra, pa, ta, rbd, pbd, tbd, variant)
+        if msg:
+            return msg if variant == 0 else f"[identifiers renamed {IDVARIANT}, product bonds added as (b, a)] {msg}"
+    return None
+
+
+def _check1(cname, n, pairs, rb, pb, has_ts, tb, ra, pa, ta, rbd, pbd, tbd, variant):
     R = [p for i, p in enumerate(pairs) if rb >> i & 1]
     P = [p for i, p in enumerate(pairs) if pb >> i & 1]
     T = sorted(set(R) | set(P) | {p for i, p in enumerate(pairs) if tb >> i & 1})
     stereo = gl.is_stereo(cname)
     base = "SMG" if stereo else "MG"
     rs, ps, ts = _mk(base, n, R, ra, rbd), _mk(base, n, P, pa, pbd), _mk(base, n, T, ta, tbd)
+    if variant == 1:
+        # the same reaction on identifiers 0, 8, 16, 24, the three graphs built independently: product bonds are added with the arguments swapped
+        from vp.lib import tmpl
+        rs, ps, ts = tmpl.rename(rs, IDVARIANT), tmpl.rename(ps, IDVARIANT), tmpl.rename(ts, IDVARIANT)
+        ps = dict(ps)
+        ps["bonds"] = [(b, a, r, at) for (a, b, r, at) in ps["bonds"]]
+        f = lambda prs: [(IDVARIANT[a], IDVARIANT[b]) for a, b in prs]  # noqa: E731
+        R, P, T = f(R), f(P), f(T)
     gr, gp, gt = gl.build(rs), gl.build(ps), gl.build(ts)
     sr, sp, st = gl.snap(gr), gl.snap(gp), gl.snap(gt)
     cls = gl.CLS[cname]
